@@ -93,6 +93,14 @@ CHECKS = {
         'note': TB + 'Schemas in refs/effects_ref.py. Not decided: tensor equalities, cups/caps inside the plugged graph.',
         'technique': 'must-fact contract, dominance rule for bound tests, sibling agreement on effect summaries, schema conformance, enum-function table evaluation',
     },
+    'C12': {
+        'text': 'Static: return-path analysis of equal_graph_with_options gives exactly the decision table {dims differ -> Some(false); identity and '
+                'up-to-phase -> Some(true); identity and exact -> Some(scalar-argument test of the composed graph); otherwise None}, with the data flow '
+                'adjoint-of-one-argument plugged with the OTHER argument then full_simp; equal_graph_tensor is dims-check then to_tensor4 == to_tensor4 of its '
+                'two arguments; equal_graph_dim compares both input and output counts; wrappers pass arguments through in order.',
+        'note': TB + 'The definite answers additionally rest on C11-D1 (is_identity) and C01 (simplifier soundness), reported under their own ids. Not decided: agreement with ground truth.',
+        'technique': 'return-path condition analysis (decision table) and data-flow rule',
+    },
     'C14': {
         'text': 'Static: the two QASM name tables are mutually inverse for every kind but UnknownGate and use the standard names; the arity table equals '
                 'the reference; the opaque prelude declares every gate name of the property with the arity of num_qubits() and a parameter exactly when '
